@@ -1,8 +1,72 @@
 """config/config.py -> GenWalletCfg.v : WALLET_KEY_STRUCTURES and the KEY_PATH_* templates, exactly as the
 source has them (strings, in file order).  Read by importing the module from the working tree, so an edit of a
-purpose number, a path template, a witness type or an encoding changes the inputs of the C09 proofs."""
+purpose number, a path template, a witness type or an encoding changes the inputs of the C09 proofs.
+
+wallets.py -> the same file: the two guards that decide whether a wallet may hand out keys outside the branch of its
+main key - the test in front of "cannot use multiple witness types" in Wallet.keys_for_path and the one in front of
+"A master private key of depth 0 is needed" in Wallet.new_account - as Gallina boolean functions of the facts they
+look at (main key present / private / of depth 0, witness type differs, multisig).  The key book model calls these
+functions, and Proofs/WalletKeysTables.v proves them equal to a frozen copy: a test that loses or changes a
+condition breaks that proof.  A test that mentions anything else is emitted as `false` (the guard never fires) with
+the source text in a comment, which breaks the same proof."""
+import ast
+import os
 import sys
 from coqfmt import *
+
+_ATOMS = {'self.main_key': 'has_main', 'self.main_key.is_private': 'is_private', 'self.multisig': 'multisig'}
+
+
+def _bool(node):
+    """a Python test over the known facts -> Gallina bool expression; None when it mentions anything else"""
+    if isinstance(node, ast.BoolOp):
+        parts = [_bool(v) for v in node.values]
+        if any(p is None for p in parts):
+            return None
+        return '(' + (' && ' if isinstance(node.op, ast.And) else ' || ').join(parts) + ')'
+    if isinstance(node, ast.UnaryOp) and isinstance(node.op, ast.Not):
+        inner = _bool(node.operand)
+        return None if inner is None else 'negb ' + inner
+    if isinstance(node, ast.Compare) and len(node.ops) == 1:
+        l, r, op = ast.unparse(node.left), ast.unparse(node.comparators[0]), node.ops[0]
+        if {l, r} == {'self.main_key.depth', '0'}:
+            if isinstance(op, ast.NotEq) or (isinstance(op, ast.Gt) and l == 'self.main_key.depth'):
+                return 'negb depth0'
+            if isinstance(op, ast.Eq):
+                return 'depth0'
+        if {l, r} == {'self.witness_type', 'witness_type'}:
+            if isinstance(op, ast.NotEq):
+                return 'wt_differs'
+            if isinstance(op, ast.Eq):
+                return 'negb wt_differs'
+        if l == 'self.main_key.is_private' and r in ('False', 'True') and \
+                isinstance(op, (ast.Is, ast.Eq, ast.IsNot, ast.NotEq)):
+            pos = (r == 'True') == isinstance(op, (ast.Is, ast.Eq))
+            return 'is_private' if pos else 'negb is_private'
+        return None
+    return _ATOMS.get(ast.unparse(node))
+
+
+def _guards(repo):
+    """[(name, Gallina expression or None, source text of the test(s))]"""
+    out = []
+    try:
+        tree = ast.parse(open(os.path.join(repo, 'bitcoinlib', 'wallets.py')).read())
+        cls = [n for n in tree.body if isinstance(n, ast.ClassDef) and n.name == 'Wallet'][0]
+        fn = {n.name: n for n in cls.body if isinstance(n, ast.FunctionDef)}
+    except Exception as e:      # unreadable source: both guards unknown
+        fn = {}
+    for name, func, needle in (('kfp_witness_guard', 'keys_for_path', 'cannot use multiple witness types'),
+                               ('new_account_guard', 'new_account', 'master private key of depth 0 is needed')):
+        tests = []
+        if func in fn:
+            for node in ast.walk(fn[func]):
+                if isinstance(node, ast.If) and any(isinstance(st, ast.Raise) and needle in ast.unparse(st)
+                                                    for st in node.body):
+                    tests.append(node.test)
+        expr = _bool(tests[0]) if len(tests) == 1 else None
+        out.append((name, expr, ' ;; '.join(ast.unparse(t) for t in tests) or 'no such test found'))
+    return out
 
 
 def _opt_z(v):
@@ -52,4 +116,14 @@ Record key_structure := {
     out.append('Definition WALLET_KEY_STRUCTURES : list key_structure := [\n  %s\n].\n' % ';\n  '.join(rows))
     out.append('Definition cfg_wallet_DEFAULT_WITNESS_TYPE : string := %s.' % string_lit(cfg.DEFAULT_WITNESS_TYPE))
     out.append('Definition cfg_wallet_DEFAULT_NETWORK : string := %s.' % string_lit(cfg.DEFAULT_NETWORK))
+    out.append('')
+    out.append('(* the guards of Wallet.keys_for_path / Wallet.new_account, from the source text of wallets.py *)')
+    for name, expr, src in _guards(repo):
+        src = src.replace('(*', '( *').replace('*)', '* )')
+        if expr is None:
+            out.append('(* NOT RECOGNISED: %s *)' % src)
+            expr = 'false'
+        else:
+            out.append('(* %s *)' % src)
+        out.append('Definition %s (has_main is_private depth0 wt_differs multisig : bool) : bool :=\n  %s.' % (name, expr))
     return {'GenWalletCfg.v': '\n'.join(out) + '\n'}
